@@ -66,6 +66,16 @@ CHECKS = {
         "DESIGN.md 6 C20",
         TRUST,
     ),
+    "C16": (
+        "TLC exhaustive check of StableDt (exact rationals: positivity, linearity, advective and diffusive bounds; guard-placement "
+        "variant refuted) with every instance mapped exactly onto concrete f32/f64 instances and replayed into the real helper "
+        "and simulators; direct evaluation of the bounds on natural instances; TLC exhaustive MC_MaxPrinciple replayed into the "
+        "real diffusion kernels",
+        "Model checking of the time-step selection over the regimes that precision and grid size produce + conformance of the "
+        "returned value; the maximum principle is exhaustive over the stencil of one cell, hence over every cell.",
+        "DESIGN.md 6 C16",
+        TRUST,
+    ),
 }
 
 NOT_YET = "check not built yet in this round (see DESIGN.md 11 for the build order)"
